@@ -14,7 +14,7 @@ def permitted (bt : Built) (o : Bytes) : Bool :=
     (match bt.cfg.allowFunc with | some f => f o | none => false)
 
 def isPreflight (q : Request) : Bool :=
-  toLower q.origin ≠ [] && q.method = OPTIONS && q.acrMethod ≠ []
+  !q.skip && toLower q.origin ≠ [] && q.method = OPTIONS && q.acrMethod ≠ []
 
 /-- clause 1: ACAO only if allowed, and then `*` (iff all origins allowed) or the lower-cased origin -/
 def acaoOK (bt : Built) (q : Request) (r : Response) : Bool :=
@@ -29,8 +29,13 @@ def credsOK (bt : Built) (r : Response) : Bool :=
   (!r.acac) || (bt.cfg.credentials && r.acao.isSome && r.acao ≠ some (b "*"))
 
 /-- clause 3: responses that vary by origin carry `Vary: Origin` -/
-def varyOK (bt : Built) (r : Response) : Bool :=
-  bt.allowAll || r.vary.contains vOrigin
+def varyOK (bt : Built) (q : Request) (r : Response) : Bool :=
+  bt.allowAll || q.skip || r.vary.contains vOrigin
+
+/-- clause 0: when `Next` tells the middleware to step aside it adds nothing and calls the handler -/
+def skipOK (q : Request) (r : Response) : Bool :=
+  !q.skip || (r.next && !r.status204 && r.acao.isNone && !r.acac && r.vary.isEmpty &&
+              r.allowMethods.isNone && r.allowHeaders.isNone && r.maxAge.isNone && r.expose.isNone && !r.privateNet)
 
 /-- clause 4: preflight gets 204, configured methods/headers, handler not reached;
     everything else reaches the handler -/
@@ -45,9 +50,10 @@ def preflightOK (bt : Built) (q : Request) (r : Response) : Bool :=
 
 /-- The property: first failing clause, or `none`. -/
 def specViolation (bt : Built) (q : Request) (r : Response) : Option String :=
-  if !acaoOK bt q r then some "acao-only-if-allowed"
+  if !skipOK q r then some "next-skips-middleware"
+  else if !acaoOK bt q r then some "acao-only-if-allowed"
   else if !credsOK bt r then some "never-star-with-credentials"
-  else if !varyOK bt r then some "vary-origin"
+  else if !varyOK bt q r then some "vary-origin"
   else if !preflightOK bt q r then some "preflight"
   else none
 
